@@ -15,6 +15,7 @@ import (
 type vLogStorage struct {
 	*BasicSlabStorage
 	writes int
+	stored map[SlabID]bool // identifiers passed to Store since the last reset
 	// fault injection on Retrieve: fail the k-th call (1-based); 0 = never
 	retrFailAt int
 	retrCalls  int
@@ -31,6 +32,9 @@ func (s *vLogStorage) RetrieveIfLoaded(id SlabID) Slab {
 
 func (s *vLogStorage) Store(id SlabID, slab Slab) error {
 	s.writes++
+	if s.stored != nil {
+		s.stored[id] = true
+	}
 	return s.BasicSlabStorage.Store(id, slab)
 }
 func (s *vLogStorage) Remove(id SlabID) error {
